@@ -26,7 +26,53 @@ def anc_closure(edges, classes):
     return anc
 
 
-def scenario(idx, classes, edges, statements, methods, defs, abstract=()):
+def _mparams(shape, vp):
+    """declared parameter list of a method: shape over V virtual_<K&>, W virtual_<K*>, P virtual_ptr<K>, N int"""
+    out, vi = [], 0
+    for ch in shape:
+        if ch == "N":
+            out.append("int")
+        else:
+            k = vp[vi]
+            vi += 1
+            out.append({"V": "virtual_<K%d&>", "W": "virtual_<K%d*>", "P": "virtual_ptr<K%d>"}[ch] % k)
+    return ", ".join(out)
+
+
+def _dparams(shape, dvp):
+    out, vi = [], 0
+    for i, ch in enumerate(shape):
+        if ch == "N":
+            out.append("int n%d" % i)
+        else:
+            k = dvp[vi]
+            vi += 1
+            out.append({"V": "K%d& a%d", "W": "K%d* a%d", "P": "virtual_ptr<K%d> a%d"}[ch] % (k, i))
+    return ", ".join(out)
+
+
+def _fwd(shape):
+    return ", ".join(("n%d" if ch == "N" else "a%d") % i for i, ch in enumerate(shape))
+
+
+def _args(shape, vp, t):
+    """call arguments for objects o<class> of dynamic classes t, statically typed as the method's classes vp"""
+    out, vi = [], 0
+    for i, ch in enumerate(shape):
+        if ch == "N":
+            out.append(str(100 + i))
+            continue
+        v, x = vp[vi], t[vi]
+        vi += 1
+        ref = "static_cast<K%d&>(o%d)" % (v, x)
+        out.append({"V": ref, "W": "&" + ref, "P": "virtual_ptr<K%d>(%s)" % (v, ref)}[ch])
+    return ", ".join(out)
+
+
+def scenario(idx, classes, edges, statements, methods, defs, abstract=(), shapes=None):
+    """methods: [(m, vp)]; shapes: optional dict m -> shape string (default: all virtual_<K&>)"""
+    shapes = shapes or {}
+    shape_of = lambda m, vp: shapes.get(m, "V" * len(vp))
     """statements: list of lists of classes (each one register_classes(...)); methods: [(m, vp)];
     defs: [(m, d, vp)].  Precondition (C08): every direct edge has both ends in some statement."""
     anc = anc_closure(edges, classes)
@@ -44,12 +90,14 @@ def scenario(idx, classes, edges, statements, methods, defs, abstract=()):
         o.append("struct K%d%s { int tag%d = %d; virtual ~K%d() {} %s };" % (c, (" : " + bases) if bases else "", c, c, c, pure))
     for st in statements:
         o.append("register_classes(%s);" % ", ".join("K%d" % c for c in st))
+    mvp = {m: vp for m, vp in methods}
     for m, vp in methods:
-        o.append("declare_method(int, m%d, (%s));" % (m, ", ".join("virtual_<K%d&>" % v for v in vp)))
+        o.append("declare_method(int, m%d, (%s));" % (m, _mparams(shape_of(m, vp), vp)))
     for m, d, vp in defs:
         # a definition returns its number; when asked to, it forwards the call to next (macro front end)
+        sh = shape_of(m, mvp[m])
         o.append("define_method(int, m%d, (%s)) { if (g_via_next) { g_via_next = false; return next(%s); } return %d; }" %
-                 (m, ", ".join("K%d& a%d" % (v, i) for i, v in enumerate(vp)), ", ".join("a%d" % i for i in range(len(vp))), d))
+                 (m, _dparams(sh, vp), _fwd(sh), d))
     o.append("void run() {")
     r = 0
     for st in statements:
@@ -60,7 +108,7 @@ def scenario(idx, classes, edges, statements, methods, defs, abstract=()):
                      (idx * 1000 + r, c, str(listed).replace(" ", ""), "true" if c in abstract else "false"))
     for m, vp in methods:
         o.append('    std::printf("{\\"e\\":\\"method\\",\\"p\\":0,\\"m\\":%d,\\"shape\\":\\"%s\\",\\"vp\\":%s}\\n");' %
-                 (idx * 100 + m, "V" * len(vp), str(list(vp)).replace(" ", "")))
+                 (idx * 100 + m, shape_of(m, vp), str(list(vp)).replace(" ", "")))
     for m, d, vp in defs:
         o.append('    std::printf("{\\"e\\":\\"def\\",\\"p\\":0,\\"m\\":%d,\\"d\\":%d,\\"vp\\":%s}\\n");' %
                  (idx * 100 + m, d, str(list(vp)).replace(" ", "")))
@@ -77,18 +125,18 @@ def scenario(idx, classes, edges, statements, methods, defs, abstract=()):
         cov = [[x for x in concrete if v in anc[x]] for v in vp]
         import itertools
         for t in itertools.product(*cov):
-            args = ", ".join("static_cast<K%d&>(o%d)" % (v, x) for v, x in zip(vp, t))
+            args = _args(shape_of(m, vp), vp, t)
             o.append('      { g_err = ErrRec(); int o = call([&] { return m%d(%s); }); rows += (rows.empty() ? "" : ",") + std::string("[%s,") + std::to_string(o) + "," + (o >= 0 ? std::string("[]") : err_json(cls)) + "]"; }' %
                      (m, args, str(list(t)).replace(" ", "")))
         o.append('      std::printf("{\\"e\\":\\"ctable\\",\\"p\\":0,\\"m\\":%d,\\"shape\\":\\"%s\\",\\"concrete\\":true,\\"rows\\":[%%s]}\\n", rows.c_str()); }' %
-                 (idx * 100 + m, "V" * len(vp)))
+                 (idx * 100 + m, shape_of(m, vp)))
     # what next refers to inside every definition: call the method with objects of exactly the definition's
     # classes (the definition itself is selected) and let it forward to next
     for m, vp in methods:
         mdefs = [(d, dvp) for mm, d, dvp in defs if mm == m and all(x not in abstract for x in dvp)]
         o.append('    { std::string rows;')
         for d, dvp in mdefs:
-            args = ", ".join("static_cast<K%d&>(o%d)" % (v, x) for v, x in zip(vp, dvp))
+            args = _args(shape_of(m, vp), vp, dvp)
             o.append('      { g_via_next = true; int o = call([&] { return m%d(%s); }); g_via_next = false; rows += (rows.empty() ? "" : ",") + std::string("[%d,") + std::to_string(o) + "," + std::to_string(o) + "]"; }' % (m, args, d))
         o.append('      std::printf("{\\"e\\":\\"next\\",\\"p\\":0,\\"m\\":%d,\\"concrete\\":true,\\"rows\\":[%%s]}\\n", rows.c_str()); }' % (idx * 100 + m))
     o.append("}")
